@@ -408,6 +408,8 @@ impl Driver for DGeneric {
 pub struct Expect<'a> {
     pub prog: &'a Program,
     pub settings: &'a SettingsSpec,
+    /// reference substitution: (registry path segments, resolved arguments) -> emitted path, if a rule applies
+    pub subst: Option<&'a (dyn Fn(&[String], &[String]) -> Option<String> + Sync)>,
 }
 
 impl<'a> Expect<'a> {
@@ -450,6 +452,11 @@ impl<'a> Expect<'a> {
                     .filter(|(p, _)| !p.skipped)
                     .map(|(_, t)| n(t))
                     .collect();
+                if let Some(sub) = self.subst {
+                    if let Some(s) = sub(&def.path(), &kept) {
+                        return s;
+                    }
+                }
                 if kept.is_empty() {
                     path.join("::")
                 } else {
@@ -469,7 +476,14 @@ impl<'a> Expect<'a> {
             Ty::Option(t) => format!("::core::option::Option<{}>", n(t)),
             Ty::Result(x, y) => format!("::core::result::Result<{},{}>", n(x), n(y)),
             Ty::Box(t) => n(t),
-            Ty::BTreeMap(k, v) => format!("{a}::collections::BTreeMap<{},{}>", n(k), n(v)),
+            Ty::BTreeMap(k, v) => {
+                if let Some(sub) = self.subst {
+                    if let Some(s) = sub(&["BTreeMap".to_string()], &[n(k), n(v)]) {
+                        return s;
+                    }
+                }
+                format!("{a}::collections::BTreeMap<{},{}>", n(k), n(v))
+            }
             Ty::BTreeSet(t) => format!("{a}::collections::BTreeSet<{}>", n(t)),
             Ty::BinaryHeap(t) => format!("{a}::collections::BinaryHeap<{}>", n(t)),
             Ty::Range(t) => format!("::core::ops::Range<{}>", n(t)),
